@@ -103,6 +103,17 @@ where
             b[0] = if *form == "c" { 0xe0 } else { 0x60 }; // infinity + sort flag
             push(&mut ops, dec(g, form, &b, "infinity-sort"));
         }
+        // the three spare top bits of every 48-byte field other than the first are VALUE bits:
+        // setting any of them makes that coordinate unreduced
+        for field in 1..(*len / 48) {
+            for bit in [7u8, 6, 5].iter() {
+                for (p, _) in pool.iter().take(3) {
+                    let mut b = if *form == "c" { enc_c::<G>(p) } else { enc_u::<G>(p) };
+                    b[48 * field] |= 1 << bit;
+                    push(&mut ops, dec(g, form, &b, &format!("field{}-top-bit{}", field, bit)));
+                }
+            }
+        }
         // coordinates out of range: exactly q, q+1, 2^381-1, only the top word too large, q-1 (in range)
         let mut top = fq.p.clone();
         top[5] += 1;
@@ -191,6 +202,11 @@ where
                 let mut c = b.clone();
                 c[0] ^= 1 << bit;
                 ops.push(json!({"op": "decode", "g": g, "form": form, "bytes": bytes_to_j(&c), "cls": format!("flag-toggled/{}", cls)}));
+            }
+            for field in 1..(b.len() / 48) {
+                let mut c = b.clone();
+                c[48 * field] |= 1 << (5 + (i + field) % 3);
+                ops.push(json!({"op": "decode", "g": g, "form": form, "bytes": bytes_to_j(&c), "cls": format!("inner-field-top-bit/{}", cls)}));
             }
             if i % 2 == 0 {
                 let mut c = b.clone();
